@@ -175,7 +175,8 @@ def rank2_system(dom, omega_obj):
 
 def rank3_tables(dom):
     k = np.asarray(dom.k)
-    return {('A', 'A'): 1.0 + 2.0 / (1.0 + k ** 2), ('A', 'B'): 0.5 * np.exp(-0.3 * k), ('A', 'C'): -0.25 * np.sin(k) / (1.0 + k),
+    # the FIRST table is single precision (data read from a float32 file): the exported matrix is double all the same
+    return {('A', 'A'): (1.0 + 2.0 / (1.0 + k ** 2)).astype(np.float32), ('A', 'B'): 0.5 * np.exp(-0.3 * k), ('A', 'C'): -0.25 * np.sin(k) / (1.0 + k),
             ('B', 'C'): 0.125 / (1.0 + 0.5 * k), ('C', 'C'): 1.0 + 7.0 * np.exp(-k * k)}
 
 
@@ -304,7 +305,7 @@ def case_one(rec, c):
             for (a, b), tab in tabs.items():
                 site = RHO3[a] if a == b else RHO3[a] + RHO3[b]
                 for x, y in ((a, b), (b, a)):
-                    if not np.array_equal(P.omega[x, y], tab * site):
+                    if P.omega[x, y].dtype != np.float64 or not np.array_equal(P.omega[x, y], np.asarray(tab, dtype=float) * site):
                         rec.fail(c, 'rank-3 System with six different tabulated omegas: PRISM.omega[%s,%s] is not the table supplied for that pair times its site density' % (x, y),
                                  tags(src, 'not-verbatim'))
                         break
